@@ -63,6 +63,9 @@ type c07Opts struct {
 	Batch      int    `json:"batch"`
 	FlushEvery int    `json:"flush_every_batches"`
 	OpenMode   string `json:"open_mode"`
+	// "" | footer (encrypted footer) | plain-footer (signed plaintext footer) | column-keys (+ AAD prefix);
+	// AES_GCM_CTR_V1 is refused by the writer ("not yet implemented")
+	Encrypt string `json:"encryption,omitempty"`
 	// source file of the WriteRowGroup-from-file paths
 	SrcCodec string `json:"src_compression,omitempty"`
 	SrcPageV int    `json:"src_data_page_version,omitempty"`
@@ -371,6 +374,9 @@ func c07GenCase(ctx *core.Ctx, index int) *c07Case {
 	o.BloomComp = []string{"", "", "", "gzip", "uncompressed"}[r.Intn(5)]
 	o.Deferred = r.Intn(4) == 0
 	o.OpenMode = []string{"default", "default", "skip", "prefetch"}[r.Intn(4)]
+	// round 3: choices added later draw from their own stream, so that the earlier cases stay as they were
+	r3 := ctx.Rand(fmt.Sprintf("files/%d/round3", index))
+	o.Encrypt = []string{"", "", "", "", "", "", "footer", "plain-footer", "column-keys", "column-keys"}[r3.Intn(10)]
 	cs.N = []int{0, 1, 2, 7, 8, 9, 63, 64, 65, 100, 129, 300, 1000, 2500}[r.Intn(14)]
 	if o.MaxRows > 0 && o.MaxRows <= 2 {
 		cs.N = min(cs.N, 65)
@@ -490,8 +496,47 @@ func (cs *c07Case) options(src bool) []parquet.WriterOption {
 		if o.Deferred {
 			opts = append(opts, parquet.DeferBloomFiltersWithBuffers(parquet.NewBufferPool()))
 		}
+		if ec := cs.encryption(); ec != nil {
+			opts = append(opts, parquet.WithEncryption(ec))
+		}
 	}
 	return opts
+}
+
+// keys of the encrypted cases: one footer key, one key per column for "column-keys"
+var c07FooterKey = bytes.Repeat([]byte{0x5A}, 16)
+
+func c07ColumnKey(name string) []byte {
+	h := sha256.Sum256([]byte("c07 column key " + name))
+	return h[:16]
+}
+
+type c07Keys struct{}
+
+func (c07Keys) FooterKey([]byte) ([]byte, error) { return c07FooterKey, nil }
+func (c07Keys) ColumnKey(path []string, _ []byte) ([]byte, error) {
+	return c07ColumnKey(strings.Join(path, ".")), nil
+}
+
+func (cs *c07Case) encryption() *parquet.EncryptionConfig {
+	if cs.Opts.Encrypt == "" {
+		return nil
+	}
+	ec := &parquet.EncryptionConfig{
+		FooterKey:       c07FooterKey,
+		EncryptedFooter: cs.Opts.Encrypt != "plain-footer",
+		FileIdentifier:  []byte{1, 2, 3, 4, 5, 6, 7, 8},
+	}
+	if cs.Opts.Encrypt == "column-keys" {
+		ec.ColumnKeys = map[string][]byte{}
+		for i, c := range cs.Cols {
+			if i%2 == 0 { // the others fall back to the footer key
+				ec.ColumnKeys[c.Name] = c07ColumnKey(c.Name)
+			}
+		}
+		ec.AadPrefix = []byte("c07")
+	}
+	return ec
 }
 
 // leaf column index of every case column
@@ -796,6 +841,10 @@ func c07RunCase(ctx *core.Ctx, b *c07Batch, cs *c07Case) {
 	case "prefetch":
 		fopts = append(fopts, parquet.PrefetchBloomFilters(true))
 	}
+	if cs.Opts.Encrypt != "" {
+		fopts = append(fopts, parquet.WithDecryption(c07Keys{}))
+		ctx.Hist("files.encryption", cs.Opts.Encrypt)
+	}
 	f, err := parquet.OpenFile(bytes.NewReader(data), int64(len(data)), fopts...)
 	if err != nil {
 		ctx.Fail("L1", "written-file-does-not-open", "OpenFile fails on a file the writer produced: "+err.Error(), cs.describe(ctx.Seed))
@@ -905,7 +954,10 @@ func c07CheckChunk(ctx *core.Ctx, b *c07Batch, cs *c07Case, f *parquet.File, rgi
 		ctx.Fail("L2", "filter-readat-error", "BloomFilter.ReadAt: "+err.Error(), where())
 		return
 	}
-	if cs.Opts.BloomComp == "gzip" {
+	if cs.Opts.BloomComp == "gzip" && cs.Opts.Encrypt != "" {
+		// newBloomFilterFromBytes (encrypted columns) decompresses eagerly: Size/ReadAt are the bitset's
+		ctx.Hist("files.filter-compression", "gzip-encrypted-read-back-decompressed")
+	} else if cs.Opts.BloomComp == "gzip" {
 		if un, err := c07Gunzip(raw); err == nil {
 			raw = un
 			ctx.Hist("files.filter-compression", "gzip")
